@@ -121,6 +121,41 @@ theorem tr_decodeAttDescs (hb : IsBytes bs) (d : Nat) :
 
 /-! ### integer attribute values -/
 
+theorem tr_integerValuesTail (sel ne nc d : Nat) (hnv : 4 * (ne * nc) ≤ allocBound bs.length d) :
+    Tr bs d (integerValuesTail sel ne nc) (fun _ => d) (fun _ => True) := by
+  unfold integerValuesTail
+  refine tr_bind tr_version (fun ver _ => ?_)
+  refine tr_bind tr_require (fun _ _ => ?_)
+  extract_lets numValues jp2
+  refine tr_bind (tr_alloc hnv) (fun _ _ => ?_)
+  refine tr_bind tr_require (fun _ _ => ?_)
+  apply tr_ite
+  · intro _; exact tr_failWith
+  intro _
+  refine tr_bind tr_rdU8_any (fun compressed _ => ?_)
+  have hjp2 : ∀ raw : List Nat, Tr bs d (jp2 raw) (fun _ => d) (fun _ => True) := by
+    intro raw
+    simp -zeta only [jp2]
+    extract_lets vals octaDelta
+    split
+    · exact tr_bind (tr_lift_any wrap_decodeTransformData_suf) (fun t _ => tr_pure trivial)
+    · exact tr_bind (tr_lift_any (octa_legacyDecodeTransformData_suf _)) (fun c _ => tr_pure trivial)
+    · exact tr_bind (tr_lift_any octa_decodeTransformData_suf) (fun c _ => tr_pure trivial)
+    · exact tr_pure trivial
+  apply tr_ite <;> intro _
+  · exact tr_bind (tr_lift_any (decodeSymbolsV_suf _ _ _)) (fun raw _ => hjp2 raw)
+  · refine tr_bind tr_rdU8_any (fun numBytes _ => ?_)
+    apply tr_ite <;> intro _
+    · refine tr_bind tr_bytes (fun b _ => ?_)
+      exact tr_bind (tr_pure (F := fun _ => True) trivial) (fun raw _ => hjp2 raw)
+    · refine tr_bind tr_require (fun _ _ => ?_)
+      refine tr_bind tr_remaining (fun rem _ => ?_)
+      refine tr_bind tr_require (fun _ _ => ?_)
+      apply tr_ite <;> intro _
+      · exact tr_bind (tr_pure (F := fun _ => True) trivial) (fun raw _ => hjp2 raw)
+      · refine tr_bind tr_bytes (fun b _ => ?_)
+        exact tr_bind (tr_pure (F := fun _ => True) trivial) (fun raw _ => hjp2 raw)
+
 theorem tr_decodeIntegerValues (kind ne nc d : Nat) (hnv : 4 * (ne * nc) ≤ allocBound bs.length d) :
     Tr bs d (decodeIntegerValues kind ne nc) (fun _ => d) (fun _ => True) := by
   unfold decodeIntegerValues
@@ -135,7 +170,7 @@ theorem tr_decodeIntegerValues (kind ne nc d : Nat) (hnv : 4 * (ne * nc) ≤ all
     intro sel
     simp -zeta only [jp]
     apply tr_ite
-    · intro _; exact tr_failWith
+    · intro _; exact tr_integerValuesTail 2 ne nc d hnv
     intro _
     refine tr_bind tr_require (fun _ _ => ?_)
     refine tr_bind (tr_alloc hnv) (fun _ _ => ?_)
@@ -158,7 +193,7 @@ theorem tr_decodeIntegerValues (kind ne nc d : Nat) (hnv : 4 * (ne * nc) ≤ all
         apply tr_ite <;> intro _ <;> exact tr_pure trivial
       · exact tr_pure trivial
     apply tr_ite <;> intro _
-    · exact tr_bind (tr_decodeSymbolsM _ _ d) (fun raw _ => hjp2 raw)
+    · exact tr_bind (tr_lift_any (leaf_decodeSymbols_suf _ _)) (fun raw _ => hjp2 raw)
     · refine tr_bind tr_rdU8_any (fun numBytes _ => ?_)
       apply tr_ite <;> intro _
       · refine tr_bind tr_bytes (fun b _ => ?_)
@@ -259,6 +294,115 @@ theorem tr_decodeSequentialAttributes (hb : IsBytes bs) (opts : DecOpts) (np d :
     · exact tr_bind tr_require (fun _ _ => tr_pure trivial)
     · exact tr_fail
 
+theorem tr_decodeSchemeSelection (kind d : Nat) : Tr bs d (decodeSchemeSelection kind) (fun _ => d) (fun _ => True) := by
+  unfold decodeSchemeSelection
+  refine tr_bind tr_rdI8 (fun method _ => ?_)
+  refine tr_bind tr_require (fun _ _ => ?_)
+  apply tr_ite <;> intro _
+  · exact tr_pure trivial
+  refine tr_bind tr_rdI8 (fun tt _ => ?_)
+  refine tr_bind tr_require (fun _ _ => ?_)
+  repeat' (first | exact tr_pure trivial | (apply tr_ite <;> intro _))
+
+theorem tr_decodeTransformParams (dt nc d : Nat) : Tr bs d (decodeTransformParams dt nc) (fun _ => d) (fun _ => True) := by
+  unfold decodeTransformParams
+  apply tr_ite <;> intro _
+  · refine tr_bind (tr_replicateM' _ (fun _ => True) d tr_rdU32 _) (fun mins _ => ?_)
+    refine tr_bind tr_rdU32 (fun range _ => ?_)
+    refine tr_bind tr_rdU8_any (fun bits _ => ?_)
+    exact tr_bind tr_require (fun _ _ => tr_pure trivial)
+  · apply tr_ite <;> intro _
+    · exact tr_bind tr_rdU8_any (fun bits _ => tr_pure trivial)
+    · exact tr_pure trivial
+
+theorem tr_storeValuesCheck (st : SeqAttState) (d : Nat) : Tr bs d (storeValuesCheck st) (fun _ => d) (fun _ => True) := by
+  unfold storeValuesCheck
+  apply tr_ite <;> intro _
+  · exact tr_weaken tr_require (fun _ => Nat.le_refl _) (fun _ _ => trivial)
+  · apply tr_ite <;> intro _
+    · split
+      · exact tr_weaken tr_require (fun _ => Nat.le_refl _) (fun _ _ => trivial)
+      · exact tr_fail
+    · exact tr_pure trivial
+
+theorem tr_finishSeqAttribute (opts : DecOpts) (st : SeqAttState) (n : Nat) (mp : Option (List Nat)) (d : Nat) :
+    Tr bs d (finishSeqAttribute opts st n mp) (fun _ => d) (fun _ => True) := by
+  unfold finishSeqAttribute
+  dsimp only
+  apply tr_ite <;> intro _
+  · exact tr_pure trivial
+  apply tr_ite <;> intro _
+  · exact tr_pure trivial
+  split
+  · exact tr_pure trivial
+  · split
+    · exact tr_pure trivial
+    · exact tr_fail
+  · split
+    · exact tr_pure trivial
+    · exact tr_fail
+
+theorem tr_decodeSequentialAttributesLegacy (hb : IsBytes bs) (opts : DecOpts) (np d : Nat) (hnp : np ≤ d) :
+    Tr bs d (decodeSequentialAttributesLegacy opts np) (fun _ => d) (fun _ => True) := by
+  unfold decodeSequentialAttributesLegacy
+  have hK : allocK = 2048 := rfl
+  refine tr_bind (tr_decodeAttDescs hb d) (fun descs hdescs => ?_)
+  refine tr_bind (tr_alloc (allocBound_of_le (by rw [hK]; have := hdescs.1; omega))) (fun _ _ => ?_)
+  refine tr_bind (tr_mapM' _ DescB (fun st => DescB st.desc) d ?_ descs hdescs.2) (fun st1 h1 => ?_)
+  · intro x hx
+    refine tr_bind tr_rdU8_any (fun dt _ => ?_)
+    refine tr_bind tr_require (fun _ _ => ?_)
+    extract_lets jpIn jpOut
+    have hIn : ∀ u, Tr bs d (jpIn u) (fun _ => d) (fun st => DescB st.desc) := by
+      intro u; simp -zeta only [jpIn]; exact tr_pure hx
+    have hOut : ∀ u, Tr bs d (jpOut u) (fun _ => d) (fun st => DescB st.desc) := by
+      intro u
+      simp -zeta only [jpOut]
+      apply tr_ite <;> intro _
+      · exact tr_bind tr_require (fun u _ => hIn u)
+      · exact hIn ()
+    apply tr_ite <;> intro _
+    · exact tr_bind tr_require (fun u _ => hOut u)
+    · exact hOut ()
+  refine tr_bind tr_require (fun _ _ => ?_)
+  refine tr_bind (tr_alloc (allocBound_of_decl (c := 4) (by rw [hK]; omega) (Nat.mul_le_mul_left 4 hnp))) (fun _ _ => ?_)
+  refine tr_bind (tr_mapM' _ (fun st => DescB st.desc) (fun _ => True) d ?_ st1 h1.2) (fun st2 h2 => ?_)
+  · intro st hst
+    extract_lets stride nc
+    have hstride : stride ≤ 2040 := by
+      have h1 := dataTypeLength_le st.desc.dataType
+      have h2 : st.desc.numComponents ≤ 255 := by have := hst.1; omega
+      calc stride = dataTypeLength st.desc.dataType * st.desc.numComponents := rfl
+        _ ≤ 8 * 255 := Nat.mul_le_mul h1 h2
+    have hnc : nc ≤ 255 := by
+      simp only [nc]; split
+      · omega
+      · have := hst.1; omega
+    refine tr_bind (tr_alloc (allocBound_of_decl (c := 2040) (by rw [hK]; omega) ?_)) (fun _ _ => ?_)
+    · calc np * stride ≤ d * 2040 := Nat.mul_le_mul hnp hstride
+        _ = 2040 * d := Nat.mul_comm _ _
+    apply tr_ite <;> intro _
+    · exact tr_bind tr_bytes (fun b _ => tr_pure trivial)
+    · refine tr_bind (tr_decodeSchemeSelection _ d) (fun sel _ => ?_)
+      refine tr_bind (tr_decodeTransformParams _ _ d) (fun tr _ => ?_)
+      refine tr_bind (tr_integerValuesTail sel np nc d (allocBound_of_decl (c := 1020) (by rw [hK]; omega) ?_)) (fun vals _ => ?_)
+      · calc 4 * (np * nc) ≤ 4 * (d * 255) := Nat.mul_le_mul_left 4 (Nat.mul_le_mul hnp hnc)
+          _ = 1020 * d := by omega
+      extract_lets s'
+      exact tr_bind (tr_storeValuesCheck s' d) (fun _ _ => tr_pure trivial)
+  refine tr_weaken (tr_mapM' _ (fun _ => True) (fun _ => True) d ?_ st2 (fun _ _ => trivial)) (fun _ => Nat.le_refl _)
+    (fun _ _ => trivial)
+  intro st _
+  exact tr_finishSeqAttribute opts st np none d
+
+theorem tr_decodeSequentialAttributesV (hb : IsBytes bs) (opts : DecOpts) (np d : Nat) (hnp : np ≤ d) :
+    Tr bs d (decodeSequentialAttributesV opts np) (fun _ => d) (fun _ => True) := by
+  unfold decodeSequentialAttributesV
+  refine tr_bind tr_version (fun ver _ => ?_)
+  apply tr_ite <;> intro _
+  · exact tr_decodeSequentialAttributesLegacy hb opts np d hnp
+  · exact tr_decodeSequentialAttributes hb opts np d hnp
+
 theorem tr_decodePointAttributesSeq (hb : IsBytes bs) (opts : DecOpts) (np d : Nat) (hnp : np ≤ d) :
     Tr bs d (decodePointAttributesSeq opts np) (fun _ => d) (fun _ => True) := by
   unfold decodePointAttributesSeq
@@ -266,7 +410,7 @@ theorem tr_decodePointAttributesSeq (hb : IsBytes bs) (opts : DecOpts) (np d : N
   apply tr_ite <;> intro _
   · exact tr_pure trivial
   · apply tr_ite <;> intro _
-    · exact tr_decodeSequentialAttributes hb opts np d hnp
+    · exact tr_decodeSequentialAttributesV hb opts np d hnp
     · exact tr_failWith
 
 /-! ### sequential connectivity -/
@@ -303,7 +447,7 @@ theorem tr_decodeSeqConnectivity (d : Nat) :
         refine tr_bind (tr_alloc hfaces) (fun _ _ => ?_)
         apply tr_ite <;> intro _
         · refine tr_bind (tr_alloc hfaces) (fun _ _ => ?_)
-          refine tr_bind (tr_decodeSymbolsM _ _ _) (fun syms _ => ?_)
+          refine tr_bind (tr_lift_any (leaf_decodeSymbols_suf _ _)) (fun syms _ => ?_)
           exact tr_bind tr_ofOption (fun idx _ => hjpI idx)
         repeat' (first
           | exact tr_bind (tr_replicateM' _ (fun _ => True) _ tr_rdU8_any _) (fun idx _ => hjpI idx)
@@ -333,9 +477,11 @@ theorem tr_decodeHeader (d : Nat) : Tr bs d decodeHeader (fun _ => d) (fun _ => 
   refine tr_bind tr_rdU8_any (fun em _ => ?_)
   exact tr_bind tr_rdU16 (fun flags _ => tr_pure trivial)
 
-theorem tr_decodeGeometry (hb : IsBytes bs) (opts : DecOpts) :
-    Tr bs 0 (decodeGeometry opts) (fun _ => 0) (fun _ => True) := by
-  unfold decodeGeometry
+/-- the dispatcher keeps the allocation invariant whenever the body decoders do -/
+theorem tr_decodeStreamWith (hb : IsBytes bs) (eb kd : DecOpts → DecM Geometry) (opts : DecOpts)
+    (heb : Tr bs 0 (eb opts) (fun _ => 0) (fun _ => True)) (hkd : Tr bs 0 (kd opts) (fun _ => 0) (fun _ => True)) :
+    Tr bs 0 (decodeStreamWith eb kd opts) (fun _ => 0) (fun _ => True) := by
+  unfold decodeStreamWith
   refine tr_bind (tr_decodeHeader 0) (fun h _ => ?_)
   refine tr_bind tr_require (fun _ _ => ?_)
   extract_lets isMesh maxMajor maxMinor ver jpM
@@ -349,7 +495,9 @@ theorem tr_decodeGeometry (hb : IsBytes bs) (opts : DecOpts) :
     intro md
     simp -zeta only [jpM]
     apply tr_ite <;> intro _
-    · exact tr_failWith
+    · exact tr_bind heb (fun g _ => tr_pure trivial)
+    apply tr_ite <;> intro _
+    · exact tr_bind hkd (fun g _ => tr_pure trivial)
     apply tr_ite <;> intro _
     · refine tr_bind (tr_decodeSeqConnectivity 0) (fun r _ => ?_)
       obtain ⟨np, faces⟩ := r
@@ -365,15 +513,16 @@ theorem tr_decodeGeometry (hb : IsBytes bs) (opts : DecOpts) :
     exact tr_bind (tr_lift_any leaf_decodeGeometryMetadata_suf) (fun g _ => tr_pure (F := fun _ => True) trivial)
   · exact tr_bind (tr_pure (F := fun _ => True) trivial) (fun md _ => hjpM md)
 
-/-- **C18 on the model.** Every allocation event of `decodeGeometry` on the byte string `bs` —
-    whether the stream is accepted or rejected — is at most
-    `allocA + allocK * (bs.length + declared)`, `declared` = the element counts the stream has declared. -/
-theorem decodeGeometry_alloc_bounded (opts : DecOpts) (bs : Bytes) (hb : IsBytes bs) :
-    ∀ e ∈ (decodeGeometry opts { rest := bs }).2.allocs,
-      e.2 ≤ allocA + allocK * (bs.length + (decodeGeometry opts { rest := bs }).2.declared) := by
+/-- **C18 on the model.** Every allocation event of the dispatcher on the byte string `bs` — whether the
+    stream is accepted or rejected — is at most `allocA + allocK * (bs.length + declared)`, provided the
+    Edgebreaker / kd-tree body decoders keep the invariant. -/
+theorem decodeStreamWith_alloc_bounded (eb kd : DecOpts → DecM Geometry) (opts : DecOpts) (bs : Bytes) (hb : IsBytes bs)
+    (heb : Tr bs 0 (eb opts) (fun _ => 0) (fun _ => True)) (hkd : Tr bs 0 (kd opts) (fun _ => 0) (fun _ => True)) :
+    ∀ e ∈ (decodeStreamWith eb kd opts { rest := bs }).2.allocs,
+      e.2 ≤ allocA + allocK * (bs.length + (decodeStreamWith eb kd opts { rest := bs }).2.declared) := by
   have h0 : Inv bs 0 { rest := bs } := ⟨List.suffix_refl _, Nat.le_refl _, by simp⟩
-  have h := tr_decodeGeometry hb opts _ h0
-  rcases hr : decodeGeometry opts { rest := bs } with ⟨r, s'⟩
+  have h := tr_decodeStreamWith hb eb kd opts heb hkd _ h0
+  rcases hr : decodeStreamWith eb kd opts { rest := bs } with ⟨r, s'⟩
   cases r with
   | none => exact (h.1 s' hr).allocs
   | some a => exact (h.2 a s' hr).1.allocs
